@@ -228,8 +228,21 @@ def check_converters(rec, cls, kind, events, n, p, index_kind, column_kind, inp,
         if not dense.index.equals(index):
             rec.violation(f"{s2d_owner}.sparse_to_dense:index", f"{call}: the dense output does not carry the given index for {what_in}",
                           "C05.index", inp)
-        if got.shape != want.shape or not np.array_equal(got, want):
-            rec.violation(f"{s2d_owner}.sparse_to_dense:labels-by-index-value",
+        s2d_ok = got.shape == want.shape and np.array_equal(got, want)
+        if memo is not None and index_kind == "range0":
+            memo[("s2d", column_kind)] = s2d_ok
+        if not s2d_ok:
+            if index_kind == "range0":
+                by_index = False
+            elif memo is not None and ("s2d", column_kind) in memo:
+                by_index = memo[("s2d", column_kind)]
+            else:                            # right under the default index?  then the index values are the cause
+                try:
+                    d0 = cls.sparse_to_dense(build_sparse(kind, events), *cached_axes("range0", column_kind, n, p))
+                    by_index = np.array_equal(np.asarray(d0.values), want)
+                except Exception:                                               # noqa: BLE001
+                    by_index = False
+            rec.violation(f"{s2d_owner}.sparse_to_dense:" + ("labels-by-index-value" if by_index else "wrong-labels"),
                           f"{call} labels {got.T.tolist()} but positions are covered as {want.T.tolist()} for {what_in}",
                           "C05.dense_labels", inp)
     # ---- dense -> sparse (fed the statement's dense frame: independent of the direction above)
@@ -245,7 +258,7 @@ def check_converters(rec, cls, kind, events, n, p, index_kind, column_kind, inp,
     if err is not None or back != target:
         got_txt = f"raised {type(err).__name__}: {err}" if err is not None else f"returned {back}"
         nondefault = index_kind != "range0"
-        adjacent = kind != "change" and any(x[1] == y_[0] for x, y_ in zip(events, events[1:]))
+        adjacent = kind != "change" and err is None and coarsens(back, target)
         default_ok = None
         if nondefault and memo is not None and column_kind in memo:
             default_ok = memo[column_kind]
@@ -262,6 +275,21 @@ def check_converters(rec, cls, kind, events, n, p, index_kind, column_kind, inp,
             key = f"{d2s_owner}.dense_to_sparse:roundtrip"
         rec.violation(key, f"{d2s_owner}.dense_to_sparse of the dense labels {want.T.tolist()} {got_txt}, expected {target} ({what_in})",
                       "C05.roundtrip", inp)
+
+
+def coarsens(back, target):
+    """Is `back` the target with some runs of adjacent intervals merged into one (and nothing else wrong)?"""
+    try:
+        cuts_t = sorted({e[0] for e in target} | {e[1] for e in target})
+        if not back or len(back) >= len(target):
+            return False
+        if min(e[0] for e in back) != min(e[0] for e in target) or max(e[1] for e in back) != max(e[1] for e in target):
+            return False
+        covered_b = {i for e in back for i in range(e[0], e[1])}
+        covered_t = {i for e in target for i in range(e[0], e[1])}
+        return covered_b == covered_t and all(e[0] in cuts_t and e[1] in cuts_t for e in back)
+    except Exception:                                                           # noqa: BLE001
+        return False
 
 
 def part_a_cases(tier, rng):
